@@ -82,7 +82,10 @@ def cases(seed, tier):
         # where the injected bytes go: the middle of the software token, or the very end of the line (where a reader that trims
         # "white space" before the line ending would drop a TAB / VT / FF without a trace), or the start of the comments
         inject_at = gen.case_rng(seed, ID, i, 'inject-at').choice(['mid', 'mid', 'end', 'end', 'com'])
-        yield {'proto': proto, 'software': software, 'sep': seps, 'comments': comments, 'inject': inject, 'inject_at': inject_at, 'headers': headers, 'eol': rng.choice(['\r\n', '\r\n', '\n']),
+        # the peer may go away right after its identification line (reset before the tool has sent anything more, close, or
+        # silence): whichever call then fails, the line that was received is still the peer's banner and is reported as such
+        die = gen.case_rng(seed, ID, i, 'die').choice([None] * 7 + ['truncate_reset', 'truncate_close', 'truncate_stall'])
+        yield {'proto': proto, 'software': software, 'sep': seps, 'comments': comments, 'inject': inject, 'inject_at': inject_at, 'die': die, 'headers': headers, 'eol': rng.choice(['\r\n', '\r\n', '\n']),
                'fam': fam, 'inside': inside, 'net': net, 'opts': rng.choice([['-n'], ['-j'], ['-n', '-b'], ['-n', '-v']]), 'pseed': rng.getrandbits(32)}
 
 
@@ -130,12 +133,13 @@ def parts_of(shown):
     return {'protocol': m.group(1), 'software': m.group(2) if m.group(2) is not None else None, 'comments': re.sub(r'\s+', ' ', com.strip()) if com and com.strip() else None}
 
 
-def run_once(case, ctx, banner_plan_str, headers):
+def run_once(case, ctx, banner_plan_str, headers, die=None):
     prof = {'banner': banner_plan_str, 'pre': headers, 'eol': case['eol'], 'kex': ['curve25519-sha256'], 'key': ['ssh-ed25519'], 'enc': ['aes128-ctr'], 'mac': ['hmac-sha2-256'],
             'comp': ['none'], 'keys': {}}
     if case['proto'].startswith('1.') and case['proto'] != '1.99':
         prof['ssh2'] = True      # the peer model still speaks SSH-2 after the line; only the identification string is under test
-    plan = gen.server_plan(case['pseed'], list(case['opts']) + ['--skip-rate-test', '-2', '-t', '2', 'srv.example:2222'], prof, port=2222, net=case['net'])
+    plan = gen.server_plan(case['pseed'], list(case['opts']) + ['--skip-rate-test', '-2', '-t', '2', 'srv.example:2222'], prof, port=2222, net=case['net'],
+                           faults=[{'conn': 0, 'msg': 'banner', 'kind': die, 'off': 10 ** 6}] if die else None, knobs={'rst_after_close': 1, 'rst_keeps_data': 1} if die else None)
     return ctx.run(plan)
 
 
@@ -166,14 +170,15 @@ def run_case(case, ctx):
     out, keys = [], []
     line = banner_bytes(case)
     hdrs = case['headers']
-    rec = run_once(case, ctx, 'hex:' + line.hex(), hdrs)
+    die = case.get('die') if '-j' not in case['opts'] else None      # a failed audit prints no JSON banner object
+    rec = run_once(case, ctx, 'hex:' + line.hex(), hdrs, die)
     if rec.get('harness_error'):
         return {'violations': [], 'keys': []}
     segclass = 'inside-line' if case['inside'] and case['net']['seg']['mode'] != 'msg' else 'line-boundary'
     exp = expected(case)
     obs = observed(case, rec)
     branch = (case['proto'][:2], bool(case['software']), case['comments'] is not None, len(case['sep']) > 1, bool(case['inject']), len(hdrs) > 0, case['eol'] == '\n', bool(case['fam']))
-    ctx_txt = 'line=%r headers=%r net=%r\nstdout:\n%s' % (line, hdrs, case['net'], rec['stdout'][:700])
+    ctx_txt = 'line=%r headers=%r net=%r%s\nstdout:\n%s' % (line, hdrs, case['net'], (' peer goes away after the line: %s' % die) if die else '', rec['stdout'][:700])
     if rec['outcome'] != 'exit' or rec['status'] not in (0, 1, 2, 3):
         out.append(viol('C16 audit crashed (status %s)' % rec['status'], ctx_txt))
         return {'violations': out, 'keys': []}
